@@ -33,6 +33,7 @@ typedef struct {
 } Opts;
 extern Opts g_opts;
 void parse_opts(int argc, char **argv);
+void run_prelude(void);           /* library calls made before the enumeration starts (see prelude.c) */
 int tier_thorough(void);
 
 /* ---- deterministic pseudo-random fill (LCG), hex ---- */
